@@ -181,6 +181,69 @@ pub fn run_real(layout: &Layout, steps: &[Step], fault: &Fault) -> RealRun {
   run
 }
 
+/// What the loop does when the keyboard hangs up with NOTHING unread.  The keyboard is the read end of a pipe; closing the
+/// write end makes it poll as hung up but not readable (EPOLLHUP without EPOLLIN) - the way an unplugged evdev node with an
+/// empty queue polls.  Whatever the notification carries, the loop has been notified about the keyboard and must go and
+/// read it (the read is what tells it that the device is gone); a loop that goes back to waiting without a read waits for ever.
+/// A pipe answers the read with end-of-file, which evdev never does and on which the reader of this tool spins; so the
+/// probe only observes WHICH of the two happens (thread back in epoll_wait / thread busy reading - states read from /proc),
+/// then swaps a reset socket under the descriptor so that the next read fails and the loop ends.
+pub enum HangupObs { ReadAttempted, WentBackToWaiting, Machinery(String) }
+
+pub fn hangup_probe(layout: &Layout) -> HangupObs {
+  let mut p = [0 as libc::c_int; 2]; assert!(unsafe { libc::pipe2(p.as_mut_ptr(), libc::O_NONBLOCK) } == 0, "pipe2");
+  let (k_loop, k_feed) = (p[0], p[1]);
+  let mut q = [0 as libc::c_int; 2]; assert!(unsafe { libc::pipe2(q.as_mut_ptr(), libc::O_NONBLOCK) } == 0, "pipe2");
+  let (out_r, out_w) = (q[0], q[1]);
+  let (tx_tid, rx_tid) = mpsc::channel::<i32>(); let (tx, rx) = mpsc::channel::<Result<(), String>>();
+  let l2 = layout.clone();
+  std::thread::spawn(move || {
+    let _ = tx_tid.send(unsafe { libc::syscall(libc::SYS_gettid) } as i32);
+    let r = run_real_driver_on_fds(k_loop, out_w, None, l2, false);
+    let _ = tx.send(r);
+  });
+  let tid = rx_tid.recv().unwrap();
+  let inputs = [k_loop];
+  match wait_settled(tid, &inputs, &rx, 0) { Wait::Quiescent => {}, Wait::Returned(r) => return HangupObs::Machinery(format!("the loop returned {:?} before anything happened", r)), Wait::Machinery(m) => return HangupObs::Machinery(m) }
+  // one ordinary key event first: the pipe does work as a keyboard
+  let v0 = thread_state(tid).map(|s| s.1).unwrap_or(0);
+  let bytes: Vec<u8> = [kp(KeyCode::A, true), SYN].iter().flat_map(|r| rec_bytes(r)).collect();
+  if !write_all(k_feed, &bytes) { return HangupObs::Machinery("feeder write failed".into()); }
+  match wait_settled(tid, &inputs, &rx, v0 + 1) { Wait::Quiescent => {}, Wait::Returned(r) => return HangupObs::Machinery(format!("the loop returned {:?} after one key event", r)), Wait::Machinery(m) => return HangupObs::Machinery(m) }
+  let first = decode(&drain(out_r));
+  if first.is_empty() { return HangupObs::Machinery("the key event sent through the pipe produced no output".into()); }
+  // hang up
+  let v1 = thread_state(tid).map(|s| s.1).unwrap_or(0);
+  unsafe { libc::close(k_feed); }
+  let t0 = Instant::now(); let mut busy_since: Option<Instant> = None; let mut busy_samples = 0u32;
+  let obs = loop {
+    if rx.try_recv().is_ok() { break HangupObs::ReadAttempted; } // it read, and made something of the end-of-file
+    match thread_state(tid) {
+      Some((true, v)) if v >= v1 + 1 => {
+        std::thread::sleep(Duration::from_micros(300));
+        if let Some((true, v2)) = thread_state(tid) { if v2 == v { break HangupObs::WentBackToWaiting; } }
+        busy_since = None; busy_samples = 0;
+      }
+      Some((true, _)) => { busy_since = None; busy_samples = 0; } // not woken yet
+      Some((false, _)) => {
+        if busy_since.is_none() { busy_since = Some(Instant::now()); }
+        busy_samples += 1;
+        if busy_samples >= 40 && busy_since.unwrap().elapsed() > Duration::from_millis(20) { break HangupObs::ReadAttempted; }
+      }
+      None => break HangupObs::Machinery("cannot read the loop thread's state".into()),
+    }
+    if t0.elapsed() > Duration::from_secs(30) { break HangupObs::Machinery("hang-up probe: no stable observation within 30 s".into()); }
+    std::thread::sleep(Duration::from_micros(100));
+  };
+  // end the loop thread if it is reading: a socket whose next read fails with ECONNRESET takes the descriptor's place
+  if let HangupObs::ReadAttempted = obs {
+    let (a, b) = socketpair(); set_nonblock(a); write_all(a, b"x"); unsafe { libc::close(b); libc::dup2(a, k_loop); libc::close(a); }
+    let _ = rx.recv_timeout(Duration::from_secs(5));
+  }
+  unsafe { libc::close(out_r); }
+  obs
+}
+
 /// What the property says must be written after each step (no Special repeats in these layouts: no timers).
 pub fn reference(layout: &Layout, steps: &[Step]) -> Vec<Vec<Rec>> {
   let mut m = Mapper::for_layout(layout); let mut tablet = false; let mut out = vec![];
@@ -417,6 +480,23 @@ pub fn run_family(ctx: &Ctx, id: &str) -> RAgg {
     }
     (run, verdict)
   });
+  if id == "C10" {
+    for layout in [l_plain(), l_chord()] {
+      agg.runs += 1; agg.steps += 2;
+      let mut obs = hangup_probe(&layout);
+      if let HangupObs::WentBackToWaiting = obs { obs = hangup_probe(&layout); } // must reproduce
+      match obs {
+        HangupObs::ReadAttempted => { agg.distinct_outputs.insert(h(&"hangup-read")); }
+        HangupObs::Machinery(m) => { agg.machinery = Some(m); }
+        HangupObs::WentBackToWaiting => {
+          agg.distinct_outputs.insert(h(&"hangup-waits"));
+          let art = json!({"engine": "R", "probe": "hangup", "layout": layout_value(&layout)});
+          let e = agg.viols.entry(("C10".to_string(), "hang-up-notification-not-read".to_string())).or_insert((0, "the keyboard hung up with nothing unread (EPOLLHUP without EPOLLIN, as an unplugged device with an empty queue polls) and the loop went back to waiting without reading it: it can never learn that the device is gone".to_string(), art));
+          e.0 += 1;
+        }
+      }
+    }
+  }
   for (i, (run, verdict)) in results.into_iter().enumerate() {
     agg.runs += 1; agg.steps += scs[i].steps.len() as u64;
     agg.distinct_outputs.insert(h(&(run.per_step_out.clone(), run.after_fault_out.clone(), run.returned.as_ref().map(|r| (r.0.is_ok(), r.1)))));
@@ -433,6 +513,11 @@ pub fn run_family(ctx: &Ctx, id: &str) -> RAgg {
 
 pub fn replay_artefact(v: &Value) -> i32 {
   let layout: Layout = match serde_json::from_value(v["layout"].clone()) { Ok(l) => l, Err(e) => { eprintln!("bad layout: {}", e); return 2; } };
+  if v["probe"] == "hangup" {
+    println!("hang-up probe: keyboard = read end of a pipe, one key event, then the write end is closed with nothing unread");
+    match hangup_probe(&layout) { HangupObs::ReadAttempted => println!("the loop went and read the keyboard after the hang-up notification"), HangupObs::WentBackToWaiting => println!("the loop went back to waiting WITHOUT reading the keyboard"), HangupObs::Machinery(m) => println!("machinery: {}", m) }
+    return 0;
+  }
   let steps: Vec<Step> = v["steps"].as_array().unwrap().iter().map(|s| Step { dev: if s["dev"] == "K" { Dev::K } else { Dev::T }, recs: s["records"].as_array().unwrap().iter().map(|r| (r[0].as_u64().unwrap() as u16, r[1].as_u64().unwrap() as u16, r[2].as_i64().unwrap() as i32)).collect() }).collect();
   let f = v["fault"].as_str().unwrap_or("None");
   let num = |s: &str| -> usize { s.chars().filter(|c| c.is_ascii_digit()).collect::<String>().parse().unwrap_or(0) };
